@@ -85,6 +85,20 @@ func blocked(state string) bool {
 	return false
 }
 
+// runtimeInternalWait recognises a goroutine that waits on a semaphore of the
+// runtime itself rather than on one of the program's: state "semacquire"
+// without a sync / poll frame on top (a goroutine whose allocation started a
+// garbage collection waits there for the world semaphore, which every stack
+// dump of the census takes as well). Such a wait ends by itself: the goroutine
+// is still finishing, not left behind.
+func runtimeInternalWait(g G) bool {
+	st := g.State
+	if i := strings.Index(st, ","); i >= 0 {
+		st = st[:i]
+	}
+	return st == "semacquire" && !strings.Contains(g.Text, "sync.runtime_Semacquire") && !strings.Contains(g.Text, "poll.runtime_Semacquire")
+}
+
 // End waits (by yielding, never sleeping) for the goroutine count to return
 // to the level at Begin. If it does not, the new goroutines are examined: the
 // set is a leak once it is a fixed point in which every member is blocked.
@@ -108,7 +122,7 @@ func (c *Census) End() *Leak {
 			}
 			fresh = append(fresh, g)
 			sig += strconv.Itoa(g.ID) + ":" + g.State + ";"
-			if !blocked(g.State) {
+			if !blocked(g.State) || runtimeInternalWait(g) {
 				allBlocked = false
 			}
 		}
